@@ -15,7 +15,12 @@
 //     (package-level constants of package main substituted by their defining expressions),
 //     writes a `go build -overlay` file and builds the worker (worker.go, tag c26worker);
 //  2. the worker processes enumerate the time grid against the REAL handlers
-//     (handlePeerConnection over net.Pipe, fiber handlers over app.Test) under the virtual clock.
+//     (handlePeerConnection over net.Pipe - forward-apply on ONE persistent peer connection per case -,
+//     fiber handlers behind ONE long-lived fasthttp server per case, requests written back to back on an
+//     in-memory keep-alive connection, the replay also from a fresh connection) under the virtual clock;
+//  3. the minimal case of every violating class is re-run alone (fresh process, twice); a case that does
+//     not reproduce alone is re-run as the last case of its worker's whole case sequence (twice) and, if
+//     that reproduces, reported with signature suffix |depends-on-preceding-deliveries.
 //
 // Nothing under /repo is edited. If any binding step fails the check exits 2 (HARNESS-UNBOUND).
 package main
@@ -48,6 +53,7 @@ const (
 	apiDir      = "internal/api"
 	apiPkgPath  = "github.com/basekick-labs/arc/internal/api"
 	mainPkgDir  = "cmd/arc"
+	fiberPath   = "github.com/gofiber/fiber/v2"
 	workerGenGo = harnessDir + "/checks/c26/zz_gen_sites.go"
 )
 
@@ -752,6 +758,39 @@ func generate(workDir string) *genOut {
 	esReplay := one("Replay: field of api.EdgeSyncHandlerConfig literal in "+mainPkgDir, replay)
 	g.bindSpan(esReplay)
 
+	// the production HTTP server's buffer-relevant fiber options (the harness serves the HTTP sites from a
+	// fiber app configured the same way): each must be absent (fiber's default, false) or a literal bool
+	fiberOpts := map[string]string{"Immutable": "false", "StreamRequestBody": "false", "DisableKeepalive": "false", "ReduceMemoryUsage": "false"}
+	fiberNew := one("fiber.New call in "+apiDir+" (the production HTTP server)", findCalls(apiDir, fiberPath, "New"))
+	if fa := fiberNew.expr.(*ast.CallExpr).Args; len(fa) > 1 {
+		unbound("%s: fiber.New called with %d arguments", fiberNew.where, len(fa))
+	} else if len(fa) == 1 {
+		cl, ok := fa[0].(*ast.CompositeLit)
+		if !ok || !isPkgSel(cl.Type, fiberNew.p.localName(fiberPath), "Config") {
+			unbound("%s: fiber.New's argument is not a fiber.Config literal; cannot tell whether request strings are immutable", fiberNew.where)
+		}
+		for _, el := range cl.Elts {
+			kv, ok := el.(*ast.KeyValueExpr)
+			if !ok {
+				unbound("%s: positional fiber.Config literal", fiberNew.where)
+			}
+			k, ok := kv.Key.(*ast.Ident)
+			if !ok {
+				continue
+			}
+			if _, want := fiberOpts[k.Name]; !want {
+				continue
+			}
+			v, ok := kv.Value.(*ast.Ident)
+			if !ok || (v.Name != "true" && v.Name != "false") {
+				unbound("%s: fiber.Config.%s is not a literal bool (%s)", fiberNew.where, k.Name, fiberNew.p.text(kv.Value))
+			}
+			fiberOpts[k.Name] = v.Name
+		}
+	}
+	g.sites["http_server_fiber_options"] = fmt.Sprintf("%s: Immutable=%s StreamRequestBody=%s DisableKeepalive=%s ReduceMemoryUsage=%s",
+		fiberNew.where, fiberOpts["Immutable"], fiberOpts["StreamRequestBody"], fiberOpts["DisableKeepalive"], fiberOpts["ReduceMemoryUsage"])
+
 	wimports := map[string]string{}
 	ciCacheSrc := mc.render(ciCache, ciCache.expr, wimports, 0)
 	ciTolSrc := mc.render(ciTol, ciTol.expr, wimports, 0)
@@ -765,6 +804,8 @@ func generate(workDir string) *genOut {
 	fmt.Fprintf(&wb, "\n// %s\nfunc siteCacheInvalidateNonceCache() *zzSecurity.NonceCache { return %s }\n", ciCache.where, ciCacheSrc)
 	fmt.Fprintf(&wb, "\n// %s\nfunc siteCacheInvalidateTolerance() zzTime.Duration { return %s }\n", ciTol.where, ciTolSrc)
 	fmt.Fprintf(&wb, "\n// %s\nfunc siteEdgeSyncReplay() zzSecurity.ReplayGuard { return %s }\n", esReplay.where, esReplaySrc)
+	fmt.Fprintf(&wb, "\n// %s\nconst (\n\tsiteFiberImmutable = %s\n\tsiteFiberStreamRequestBody = %s\n\tsiteFiberDisableKeepalive = %s\n\tsiteFiberReduceMemoryUsage = %s\n)\n",
+		fiberNew.where, fiberOpts["Immutable"], fiberOpts["StreamRequestBody"], fiberOpts["DisableKeepalive"], fiberOpts["ReduceMemoryUsage"])
 	sb, _ := json.Marshal(g.sites)
 	fmt.Fprintf(&wb, "\nconst siteBindingsJSON = %s\n", strconv.Quote(string(sb)))
 	addTarget(workerGenGo, write("worker__zz_gen_sites.go", wb.String()))
@@ -838,6 +879,13 @@ func generate(workDir string) *genOut {
 	}
 	return g
 }
+
+// seqSuffix marks the signature family of violations that need the preceding deliveries to show.
+const seqSuffix = "|depends-on-preceding-deliveries"
+
+// connSites: the sites production serves over a long-lived connection (HTTP keep-alive; the persistent
+// forward-apply peer connection). Their histories carry the connection dimension.
+var connSites = []string{"cache-invalidate", "edge-sync-file", "edge-sync-reconcile", "forward-apply"}
 
 // expectedTrackSites: the five validate-then-Track call sites this check drives.
 var expectedTrackSites = []string{
@@ -1025,19 +1073,42 @@ func main() {
 		}
 		var rf struct {
 			Replay struct {
-				Case Case `json:"case"`
+				Case     Case     `json:"case"`
+				Sequence *SeqSpec `json:"sequence"`
 			} `json:"replay"`
 		}
 		if err := json.Unmarshal(b, &rf); err != nil {
 			exit(func() { unbound("replay file: %v", err) })
 		}
-		cb, _ := json.Marshal(rf.Replay.Case)
-		w, err := runWorker("-scratch", scratch, "-case", string(cb))
-		if err != nil {
-			exit(func() { unbound("replay worker: %v", err) })
-		}
-		for _, c := range w.Classes {
-			run.Violate(signature(c), describe(c), c.Min)
+		var w *WorkerOut
+		if sq := rf.Replay.Sequence; sq != nil {
+			// a violation that depends on the preceding deliveries: re-run the recorded worker sequence
+			w, err = runWorker("-tier", sq.Tier, "-shard", strconv.Itoa(sq.Shard), "-of", strconv.Itoa(sq.Of),
+				"-scratch", filepath.Join(scratch, "seq"), "-upto", strconv.Itoa(sq.Upto))
+			if err != nil {
+				exit(func() { unbound("replay worker: %v", err) })
+			}
+			if w.Target == nil || w.Target.Case != rf.Replay.Case {
+				exit(func() {
+					unbound("replay: case %d of shard %d/%d (%s) is not the recorded case", sq.Upto, sq.Shard, sq.Of, sq.Tier)
+				})
+			}
+			for _, c := range w.Classes {
+				if c.Min.Case == rf.Replay.Case {
+					sq.Cases, sq.Deliveries = w.Cases, w.Deliveries
+					run.Violate(signature(c)+seqSuffix, describe(c), SeqReplay{Case: c.Min.Case, Observed: c.Min, Sequence: *sq})
+				}
+			}
+			w.Samples = []Obs{*w.Target}
+		} else {
+			cb, _ := json.Marshal(rf.Replay.Case)
+			w, err = runWorker("-scratch", scratch, "-case", string(cb))
+			if err != nil {
+				exit(func() { unbound("replay worker: %v", err) })
+			}
+			for _, c := range w.Classes {
+				run.Violate(signature(c), describe(c), c.Min)
+			}
 		}
 		pb, _ := json.MarshalIndent(w.Samples, "", " ")
 		fmt.Println(string(pb))
@@ -1078,7 +1149,8 @@ func main() {
 
 	// merge
 	tot := &WorkerOut{Outcomes: map[string]int{}, GridOffsets: map[string]int{}, GridDelays: map[string]int{}, AcceptedOrigin: map[string]int{}, Exhaustive: true,
-		HistByLen: map[string]int{}, UnrelatedSeen: map[string]int{}}
+		HistByLen: map[string]int{}, UnrelatedSeen: map[string]int{},
+		ConnReused: map[string]int{}, ConnFresh: map[string]int{}, ConnReconnects: map[string]int{}}
 	classes := map[string]*Class{}
 	var samples []Obs
 	for i, w := range outs {
@@ -1091,8 +1163,8 @@ func main() {
 			exit(func() { ev.Nondeterminism("workers disagree on site tolerances/TTLs") })
 		}
 		if tot.Intervals == nil {
-			tot.Intervals, tot.IntervalsAssumed, tot.HistGaps = w.Intervals, w.IntervalsAssumed, w.HistGaps
-		} else if fmt.Sprint(tot.Intervals, tot.HistGaps) != fmt.Sprint(w.Intervals, w.HistGaps) {
+			tot.Intervals, tot.IntervalsAssumed, tot.HistGaps, tot.HistFreshGaps = w.Intervals, w.IntervalsAssumed, w.HistGaps, w.HistFreshGaps
+		} else if fmt.Sprint(tot.Intervals, tot.HistGaps, tot.HistFreshGaps) != fmt.Sprint(w.Intervals, w.HistGaps, w.HistFreshGaps) {
 			exit(func() { ev.Nondeterminism("workers disagree on the nonce cache's duration constants / history grid") })
 		}
 		tot.HistCases += w.HistCases
@@ -1106,6 +1178,15 @@ func main() {
 		}
 		for k, v := range w.UnrelatedSeen {
 			tot.UnrelatedSeen[k] += v
+		}
+		for k, v := range w.ConnReused {
+			tot.ConnReused[k] += v
+		}
+		for k, v := range w.ConnFresh {
+			tot.ConnFresh[k] += v
+		}
+		for k, v := range w.ConnReconnects {
+			tot.ConnReconnects[k] += v
 		}
 		tot.Cases += w.Cases
 		tot.Deliveries += w.Deliveries
@@ -1133,7 +1214,7 @@ func main() {
 			} else {
 				have.Count += c.Count
 				if caseLess(c.Min.Case, have.Min.Case) {
-					have.Min = c.Min
+					have.Min, have.MinIdx, have.MinShard = c.Min, c.MinIdx, c.MinShard
 				}
 				if c.MaxDelay > have.MaxDelay {
 					have.MaxDelay = c.MaxDelay
@@ -1175,13 +1256,33 @@ func main() {
 	if tot.ClockReads == 0 {
 		exit(func() { unbound("the rewritten clock was never read") })
 	}
+	// vacuity of the connection dimension: every long-lived-connection site must have served deliveries on
+	// an already-used connection and on fresh ones
+	for _, s := range connSites {
+		if _, ok := tot.Sites[s]; !ok {
+			exit(func() { unbound("site %s (served over a long-lived connection) is gone", s) })
+		}
+		if tot.ConnReused[s] == 0 || tot.ConnFresh[s] == 0 {
+			exit(func() {
+				unbound("site %s: %d deliveries on a reused connection, %d on fresh ones - the long-lived connection is not exercised", s, tot.ConnReused[s], tot.ConnFresh[s])
+			})
+		}
+	}
 
-	// every class: replay the minimal case twice in fresh processes; observations must be identical
+	// every class: replay the minimal case twice in a fresh process, each time on a fresh handler + cache.
+	// Identical observations -> VIOLATION with the case as replay object. Otherwise the case depends on
+	// something outside itself: the shard's whole case sequence up to and including it (the harness's own
+	// deterministic order: cases with enumeration index = shard mod workers, ascending) is re-run twice, each
+	// in a fresh process; if both re-runs observe the violating case exactly as the run did, it is a
+	// VIOLATION of kind ...|depends-on-preceding-deliveries whose replay object is that sequence. Only when
+	// even the sequence does not reproduce is it HARNESS-NONDETERMINISM.
 	keys := []string{}
 	for k := range classes {
 		keys = append(keys, k)
 	}
 	sort.Strings(keys)
+	var nondet []string
+	seqClasses := 0
 	if len(keys) > 0 {
 		var mins []Case
 		for _, k := range keys {
@@ -1195,25 +1296,91 @@ func main() {
 		if len(w.Errors) > 0 || len(w.Samples) != 2*len(keys) {
 			exit(func() { unbound("replay of minimal cases failed: %v (%d observations)", w.Errors, len(w.Samples)) })
 		}
+		type seqRes struct {
+			outs [2]*WorkerOut
+			errs [2]error
+		}
+		pending := map[string]*seqRes{}
+		var swg sync.WaitGroup
+		sem := make(chan struct{}, nw)
 		for i, k := range keys {
 			c := classes[k]
-			for rep := 0; rep < 2; rep++ {
-				if got := w.Samples[2*i+rep]; got != c.Min {
-					gb, _ := json.Marshal(got)
-					wb, _ := json.Marshal(c.Min)
-					exit(func() {
-						ev.Nondeterminism(fmt.Sprintf("minimal case of %s does not reproduce: want %s got %s", k, wb, gb))
-					})
-				}
+			if w.Samples[2*i] == c.Min && w.Samples[2*i+1] == c.Min {
+				run.Violate(signature(*c), describe(*c), c.Min)
+				continue
 			}
-			run.Violate(signature(*c), describe(*c), c.Min)
+			if c.MinIdx <= 0 {
+				nondet = append(nondet, fmt.Sprintf("minimal case of %s does not reproduce and its place in the enumeration is unknown", k))
+				continue
+			}
+			sr := &seqRes{}
+			pending[k] = sr
+			for rep := 0; rep < 2; rep++ {
+				swg.Add(1)
+				go func(k string, c *Class, rep int) {
+					defer swg.Done()
+					sem <- struct{}{}
+					defer func() { <-sem }()
+					sr.outs[rep], sr.errs[rep] = runWorker("-tier", run.Tier, "-shard", strconv.Itoa(c.MinShard), "-of", strconv.Itoa(nw),
+						"-scratch", filepath.Join(scratch, fmt.Sprintf("seq-%d-%d", c.MinIdx, rep)), "-upto", strconv.Itoa(c.MinIdx),
+						"-seed", strconv.Itoa(run.Seed))
+				}(k, c, rep)
+			}
+		}
+		swg.Wait()
+		for i, k := range keys {
+			sr, ok := pending[k]
+			if !ok {
+				continue
+			}
+			c := classes[k]
+			wb, _ := json.Marshal(c.Min)
+			ib, _ := json.Marshal(w.Samples[2*i : 2*i+2])
+			same := true
+			var got []string
+			for rep := 0; rep < 2; rep++ {
+				if sr.errs[rep] != nil {
+					exit(func() { unbound("sequence re-run for %s failed: %v", k, sr.errs[rep]) })
+				}
+				if len(sr.outs[rep].Errors) > 0 {
+					exit(func() { unbound("sequence re-run for %s failed: %v", k, sr.outs[rep].Errors) })
+				}
+				t := sr.outs[rep].Target
+				if t == nil || *t != c.Min {
+					same = false
+				}
+				tb, _ := json.Marshal(t)
+				got = append(got, string(tb))
+			}
+			if !same {
+				nondet = append(nondet, fmt.Sprintf("minimal case of %s reproduces neither in isolation nor after the worker's whole case sequence (shard %d/%d, cases up to index %d): run saw %s, isolation saw %s, sequence re-runs saw %s",
+					k, c.MinShard, nw, c.MinIdx, wb, ib, strings.Join(got, " and ")))
+				continue
+			}
+			seqClasses++
+			sq := SeqSpec{Tier: run.Tier, Shard: c.MinShard, Of: nw, Upto: c.MinIdx, Cases: sr.outs[0].Cases, Deliveries: sr.outs[0].Deliveries}
+			run.Violate(signature(*c)+seqSuffix,
+				describe(*c)+fmt.Sprintf(" -- DEPENDS ON PRECEDING DELIVERIES: the case alone (fresh process, fresh handler + cache, run twice) gives original=%s replay=%s and original=%s replay=%s; it reproduces, twice, as the last of the %d cases (%d deliveries) worker %d/%d runs in one process in the harness's enumeration order (re-run: ./check C26 %s --replay <replay file>)",
+					w.Samples[2*i].Orig, w.Samples[2*i].Replay, w.Samples[2*i+1].Orig, w.Samples[2*i+1].Replay, sq.Cases, sq.Deliveries, sq.Shard, sq.Of, run.Tier),
+				SeqReplay{Case: c.Min.Case, Observed: c.Min, Sequence: sq, Isolated: w.Samples[2*i : 2*i+2]})
 		}
 	}
+	if len(nondet) > 0 {
+		if run.ViolationClasses() == 0 {
+			exit(func() { ev.Nondeterminism(strings.Join(nondet, "; ")) })
+		}
+		// other classes are confirmed violations: report them (exit 1) and say what could not be confirmed
+		for _, n := range nondet {
+			fmt.Printf("HARNESS-NONDETERMINISM: %s\n", n)
+		}
+		run.Coverage["unconfirmed_nondeterministic_classes"] = nondet
+	}
+	run.Coverage["classes_confirmed_only_as_worker_sequence"] = seqClasses
 
 	run.Coverage["evaluations"] = tot.Cases
 	run.Coverage["deliveries"] = tot.Deliveries
 	run.Coverage["distinct_nontrivial"] = tot.NonTrivial
-	run.Coverage["rule"] = "per message type (replicate-sync, forward-apply, cache-invalidate, edge-sync-file, edge-sync-reconcile): fresh real handler + nonce cache built by the call site's own expression at virtual time T0; a signed message (timestamp = receiver second + offset) is delivered at T0+first+phase and the byte-identical message again `delay` later, optionally with unrelated valid traffic every 61 s in between (eviction sweeps). Grid = offsets x delays x recv-phase {0,0.5s} x delay sub-second {0,+0.999999999s} x first-receipt {0,61s} x ticks {off,on} (quick: edge values of tol/ttl; thorough adds every whole second of offset in [-tol-2,tol+2] x every whole second of delay in [0,max(2tol,ttl)+3]). Every tuple is distinct by construction; a case counts as non-trivial when the original was accepted and the replay arrived while its timestamp was still inside the window (only the nonce cache can stop it). HISTORIES (history_cases of the evaluations): every sequence of 2..4 deliveries on ONE handler + cache with exactly one first delivery M (timestamp = receiver second + offset), a final byte-identical replay R after it and unrelated authentic deliveries in the other positions, each U (same sender, fresh nonce) or V (another node id, the SAME nonce), every delivery preceded by a clock advance from the gap grid {0, 1s, I-1s, I, I+1s, ttl-I-1s, ttl-I, ttl-I+1s, ttl-1s, ttl, ttl+1s} (I = every time.Duration constant of nonce_cache.go as compiled, i.e. the sweep interval; history_gap_grid_s lists the values), the advances between M and R summing to at most 2*tol+2s (beyond that R is outside the window for every offset; the time grid covers that side), x the 9 edge offsets. quick: shapes MR, MXR, XMR with the time from construction to the first delivery in {0, I+1s} and MXXR starting at construction time; thorough adds construction gaps {0, I, I+1s} for those shapes, and the shapes XMXR, XXMR starting at construction time. ORDER: the quick set (histories + edge grid) of every site runs first and is never cut short; thorough then runs the extra histories and the dense grid delay by delay across all sites under its time cap (a cut sets exhaustive=false and dense_grid_delays_completed_s says how far every site got). Any accepted R after an accepted M is a violation; U and V are expected to be accepted (counted in unrelated_deliveries, a rejection is not a violation of this property)."
+	run.Coverage["rule"] = "per message type (replicate-sync, forward-apply, cache-invalidate, edge-sync-file, edge-sync-reconcile): fresh real handler + nonce cache built by the call site's own expression at virtual time T0; a signed message (timestamp = receiver second + offset) is delivered at T0+first+phase and the byte-identical message again `delay` later, optionally with unrelated valid traffic every 61 s in between (eviction sweeps). Grid = offsets x delays x recv-phase {0,0.5s} x delay sub-second {0,+0.999999999s} x first-receipt {0,61s} x ticks {off,on} (quick: edge values of tol/ttl; thorough adds every whole second of offset in [-tol-2,tol+2] x every whole second of delay in [0,max(2tol,ttl)+3]). Every tuple is distinct by construction; a case counts as non-trivial when the original was accepted and the replay arrived while its timestamp was still inside the window (only the nonce cache can stop it). HISTORIES (history_cases of the evaluations): every sequence of 2..4 deliveries on ONE handler + cache with exactly one first delivery M (timestamp = receiver second + offset), a final byte-identical replay R after it and unrelated authentic deliveries in the other positions, each U (same sender, fresh nonce) or V (another node id, the SAME nonce), every delivery preceded by a clock advance from the gap grid {0, 1s, I-1s, I, I+1s, ttl-I-1s, ttl-I, ttl-I+1s, ttl-1s, ttl, ttl+1s} (I = every time.Duration constant of nonce_cache.go as compiled, i.e. the sweep interval; history_gap_grid_s lists the values), the advances between M and R summing to at most 2*tol+2s (beyond that R is outside the window for every offset; the time grid covers that side), x the 9 edge offsets. quick: shapes MR, MXR, XMR with the time from construction to the first delivery in {0, I+1s} and MXXR starting at construction time; thorough adds construction gaps {0, I, I+1s} for those shapes, and the shapes XMXR, XXMR starting at construction time. ORDER: the quick set (histories + edge grid) of every site runs first and is never cut short; thorough then runs the extra histories and the dense grid delay by delay across all sites under its time cap (a cut sets exhaustive=false and dense_grid_delays_completed_s says how far every site got). Any accepted R after an accepted M is a violation; U and V are expected to be accepted (counted in unrelated_deliveries, a rejection is not a violation of this property). CONNECTIONS: the sites production serves over a long-lived connection (cache-invalidate, edge-sync-file, edge-sync-reconcile: HTTP keep-alive to the fiber/fasthttp server; forward-apply: the peer's persistent leader connection, handleForwardApplyLoop) get, per case, ONE long-lived server (a fiber app with the production server's Immutable/StreamRequestBody/DisableKeepalive/ReduceMemoryUsage options, its fasthttp server serving in-memory connections through Server.ServeConn; the real handlePeerConnection on an in-memory pipe) and ONE keep-alive connection over which every delivery of the case is written back to back, so the server's per-connection request object and header/body buffers are reused from delivery to delivery exactly as in production; all sender ids of a site and all nonces of a history have the same length, so a later delivery occupies exactly the bytes an earlier one did. Every history of those four sites is run in two variants: replay R on that same connection, and replay Rf on a FRESH connection opened for it while the first stays open (token suffix f) - i.e. the replay comes on the same and on a fresh connection after 0, 1 or 2 unrelated deliveries (U/V) served on M's connection since M (shapes MR, MXR, MXXR), and after unrelated deliveries before M (XMR). quick runs the Rf variants with every advance after the first drawn from the reduced grid {0, 1s, I+1s} (history_fresh_conn_quick_gap_grid_s) and the first advance as for R; thorough adds, for those shapes, the Rf variants over the full gap grid and all first advances {0, I, I+1s}, and for the thorough-only shapes (XMXR, XXMR) the Rf variants over the reduced grid. history_cases_by_shape counts Rf variants under '<shape>f'. replicate-sync is one handshake per connection in production and in the harness (no connection dimension). Time-grid cases deliver everything on the keep-alive connection. NON-REPRODUCING CASES: the minimal case of every violating class is re-run twice in a fresh process on a fresh handler; if it does not give the same observation, the worker's whole case sequence up to and including it (its shard of the enumeration, in enumeration order, one process) is re-run twice, and if both re-runs reproduce the observation the class is reported as a VIOLATION with signature suffix |depends-on-preceding-deliveries and that sequence as replay object; only otherwise is it HARNESS-NONDETERMINISM."
 	run.Coverage["history_cases"] = tot.HistCases
 	run.Coverage["cases_retried_after_harness_error"] = tot.Retried
 	if !run.Quick() {
@@ -1223,6 +1390,11 @@ func main() {
 	run.Coverage["history_nontrivial"] = tot.HistNonTrivial
 	run.Coverage["history_gap_grid_s"] = tot.HistGaps
 	run.Coverage["unrelated_deliveries"] = tot.UnrelatedSeen
+	run.Coverage["history_fresh_conn_quick_gap_grid_s"] = tot.HistFreshGaps
+	run.Coverage["conn_sites"] = connSites
+	run.Coverage["conn_deliveries_on_reused_connection"] = tot.ConnReused
+	run.Coverage["conn_deliveries_on_fresh_connection"] = tot.ConnFresh
+	run.Coverage["conn_redials_after_server_close"] = tot.ConnReconnects
 	iv := map[string]string{}
 	for k, v := range tot.Intervals {
 		iv[k] = durS(v)
@@ -1264,6 +1436,7 @@ func main() {
 	run.Assume("TTL and tolerance are the values of the call sites' own expressions (Coordinator.Start, cmd/arc/main.go, handler validate calls), evaluated by the compiler in their package; cmd/arc expressions must reduce to package-level constants and imported names")
 	run.Assume("handlers are driven in isolation: Coordinator without Raft/replication sender (accept = reply past the auth gate), edge-sync without the API-token layer (authManager nil); join/leave/heartbeat/fetch/checkpoint MACs carry no nonce-cache check in the code and are outside this property's four message types")
 	run.Assume("a rejected in-window ORIGINAL is not a violation of this property (counted in fresh_in_window_rejected)")
+	run.Assume("connections: no connection is closed before its case ends, so a fresh connection is always served by a request object of its own; the route by which fasthttp hands a CLOSED connection's request object to a later connection (a sync.Pool, hit or miss depends on goroutine scheduling) is not enumerated - the same buffer reuse is reached deterministically by the deliveries that share the keep-alive connection. The server's wall-clock read/idle timeouts are not configured (they are not part of the property); unrelated deliveries always travel on M's connection, only the replay changes connection")
 	fmt.Printf("C26 %s: %d cases (%d multi-event histories %v, %d of them non-trivial; cache periods %v), %d deliveries, %d non-trivial, %d violation classes, exhaustive=%v, sites=%v, worker build %.1fs\n",
 		run.Tier, tot.Cases, tot.HistCases, tot.HistByLen, tot.HistNonTrivial, iv, tot.Deliveries, tot.NonTrivial, len(classes), tot.Exhaustive, st, buildS)
 	ok := []string{}
